@@ -5,6 +5,7 @@ import ClaripyProofs.Lemmas.Solver.CompositeQuery
 import ClaripyProofs.Lemmas.Solver.CompositeQueries
 import ClaripyProofs.Lemmas.Solver.CompositeReabsorb
 import ClaripyProofs.Lemmas.Solver.CompositeKeep
+import ClaripyProofs.Lemmas.Solver.CompositeReplace
 /-!
 # C12 — SolverComposite answers like a monolithic solver
 
@@ -371,7 +372,13 @@ theorem test_wAnswers : (runComp wEnv {} [] wHist).map (·.2.2) = [.cons [1], .c
 `_reabsorb_solver` hands the findings back.  `CInv` is kept by the first two whatever the query (`CInv.of_world`), and by the third
   * when the names of the query belong to ONE child at most (then `_solver_for_names` returns that child, or a blank one, and
     `_reabsorb_solver` returns at once: `C12_reabsorb_noop`) — statically: all names of the query are one variable (`OneName`);
-  * in general: the statement `ReabsorbKeeps`, which is still a `def` (below). -/
+  * in general: `ReabsorbKeeps` — proved (`C12_reabsorb_keeps_invariant`, Lemmas/Solver/CompositeSplit / CompositeUpdate /
+    CompositeReplace.lean): `split()` makes parts that satisfy the C11 invariant (their markers are those of
+    `_trivial_model_optimization`: one value at most — the corrected `MCInv`), know pairwise disjoint variable sets covering the
+    merged child's variables and hold all its constraints that have variables; in the branch `len(parts) == len(old)` `update`
+    hands models (`C12_update_accepts_valid`) and markers (`part_marker_const`) to the old children, in the other branch the parts
+    replace the children (`storeAll`); the variable-less constraints of the merged child are dropped there, harmlessly: the merged
+    child is satisfiable, so they are true. -/
 
 /-- `_reabsorb_solver(m)` does nothing when `m` knows no variable, or is the child `_solvers` has for its least variable -/
 theorem C12_reabsorb_noop (E : Env) (s : CSt) (m : Nat)
@@ -391,8 +398,7 @@ theorem C12_call_keeps_invariant {E : Env} {R : Con → Prop} {RE : Exp → Prop
 CompositeFrontend, from the empty composite, the value queries about one variable each (any number of constraints over any
 variables in between: the children merge and grow as the constraints connect them): EVERY answer of the model is the one `Judge`
 demands for all the constraints added so far (or an honest give-up of a child's backend).  No hypothesis besides `SolverHyps`.
-Partial: a value query whose expressions mention two variables or more needs `ReabsorbKeeps`
-(`C12_composite_history_given_reabsorb_partial`); `min` / `max`, extra constraints of the value queries, `simplify`. -/
+Superseded by `C12_composite_history` (any variables), kept because its proof does not go through `_reabsorb_solver` at all. -/
 theorem C12_composite_history_partial {E : Env} {R : Con → Prop} {RE : Exp → Prop} (H : SolverHyps R RE E) (track : Bool)
     (hist : List Op) (hok : ∀ op ∈ hist, InScopeCH R RE OneName op) :
     ∀ x ∈ runComp E { c := { track := track }, w := { fes := [] } } [] hist, JudgeOrGiveUp E x.1 x.2.1 x.2.2 :=
@@ -418,8 +424,46 @@ theorem C12_composite_history_one_owner_partial {E : Env} {R : Con → Prop} {RE
 example (s : CSt) (hist : List Op) (h : ∀ op ∈ hist, InScopeCH cR cRE OneName op) : OwnersOk cEnv s hist :=
   ownersOk_of_oneName hist s h
 
-/-- **ANY history, any name sets**, given that `_reabsorb_solver` re-establishes the invariant (`ReabsorbKeeps`: the one
-statement still open — see `C12_full`) -/
+/-- **`_reabsorb_solver(m)` re-establishes the bookkeeping invariant** — both branches — when it is called, with the invariant in
+force, on a child `m` that holds exactly the constraints of the children owning its variables, all children being satisfiable
+(the situation after `_ensure_sat`, `_solver_for_names` and the child's query) -/
+theorem C12_reabsorb_keeps_invariant {E : Env} {R : Con → Prop} {RE : Exp → Prop} (H : SolverHyps R RE E)
+    (U : List Con) (Us : List (List Con)) (s : CSt) (m : Nat) (h : CInv R RE E U Us s) (hm : m < s.w.fes.length)
+    (hkeys : ∀ v ∈ (s.child m).variables, ∃ t, alGet? s.c.solvers v = some t)
+    (hsup : ∀ t ∈ s.c.solversFor (s.child m).variables, ∀ v ∈ (s.child t).variables, v ∈ (s.child m).variables)
+    (hsem : ∀ a, Models (Us.getD m []) a ↔ ∀ t ∈ s.c.solversFor (s.child m).variables, Models (Us.getD t []) a)
+    (hsat : ∀ t ∈ s.c.solverList, Satisfiable (Us.getD t [])) (hun : s.c.unsat = false)
+    (s' : CSt) (hrun : reabsorb E m s = (.ok (), s')) : ∃ Us', CInv R RE E U Us' s' :=
+  reabsorbKeeps H U Us s m h hm hkeys hsup hsem hsat hun s' hrun
+
+/-- **C12 for whole histories of CompositeFrontend**: ANY history of `add` / `satisfiable()` / `eval` / `batch_eval` / `solution`
+(registered symbolic expressions over ANY variables, no extra constraints) / `is_true` / `is_false` (any extra constraints) on one
+composite, from the empty one: EVERY answer of the model is the one `Judge` demands for all the constraints added so far (or an
+honest give-up of a child's backend).  No hypothesis besides `SolverHyps`. -/
+theorem C12_composite_history {E : Env} {R : Con → Prop} {RE : Exp → Prop} (H : SolverHyps R RE E) (track : Bool)
+    (hist : List Op) (hok : ∀ op ∈ hist, InScopeCH R RE (fun _ => True) op) :
+    ∀ x ∈ runComp E { c := { track := track }, w := { fes := [] } } [] hist, JudgeOrGiveUp E x.1 x.2.1 x.2.2 :=
+  comp_hist2 H (fun _ _ => Or.inr (reabsorbKeeps H)) hist _ [] [] (cinv_init R RE E track) hok
+
+/-- the bookkeeping invariant holds at the end of every such history (so: at every point of it) -/
+theorem C12_composite_history_keeps_invariant {E : Env} {R : Con → Prop} {RE : Exp → Prop} (H : SolverHyps R RE E)
+    (track : Bool) (hist : List Op) (hok : ∀ op ∈ hist, InScopeCH R RE (fun _ => True) op) :
+    ∃ Us, CInv R RE E (usersAfterOps [] hist) Us (compRun E { c := { track := track }, w := { fes := [] } } hist) :=
+  comp_hist2_inv H (fun _ _ => Or.inr (reabsorbKeeps H)) hist _ [] [] (cinv_init R RE E track) hok
+
+/-- one call in ANY state satisfying the invariant: right answer, invariant again -/
+theorem C12_call_correct {E : Env} {R : Con → Prop} {RE : Exp → Prop} (H : SolverHyps R RE E)
+    {U : List Con} {Us : List (List Con)} {s : CSt} (h : CInv R RE E U Us s) (op : Op)
+    (hop : InScopeCH R RE (fun _ => True) op) :
+    JudgeOrGiveUp E (usersAfter U op) op (compStep E s op).1 ∧ ∃ Us', CInv R RE E (usersAfter U op) Us' (compStep E s op).2 :=
+  comp_step2 H (fun _ _ => Or.inr (reabsorbKeeps H)) h op hop
+
+/-- non-vacuity: the history `cCompHist2` (below) is in scope -/
+example (op : Op) (h : InScopeCH cR cRE OneName op) : InScopeCH cR cRE (fun _ => True) op :=
+  h.mono (fun _ _ _ => trivial)
+
+/-- any history, any name sets, GIVEN that `_reabsorb_solver` re-establishes the invariant (`ReabsorbKeeps` — now a theorem:
+`C12_reabsorb_keeps_invariant`; this is the conditional form `C12_composite_history` instantiates) -/
 theorem C12_composite_history_given_reabsorb_partial {E : Env} {R : Con → Prop} {RE : Exp → Prop} (H : SolverHyps R RE E)
     (hRK : ReabsorbKeeps R RE E) (track : Bool) (hist : List Op) (hok : ∀ op ∈ hist, InScopeCH R RE (fun _ => True) op) :
     ∀ x ∈ runComp E { c := { track := track }, w := { fes := [] } } [] hist, JudgeOrGiveUp E x.1 x.2.1 x.2.2 :=
@@ -452,28 +496,16 @@ example : ∀ op ∈ cCompHist2, InScopeCH cR cRE OneName op := by
   · exact ⟨rfl, rfl, by decide, rfl, h1⟩
 
 /-- **The full statement**: every history of public calls on a CompositeFrontend (hence, with the mixin layers of C11 on top, on
-a SolverComposite) is answered as the property statement demands for all the constraints added.  Proved:
-`C12_composite_history_partial` — ANY history of add / satisfiable() / eval / batch_eval / solution / is_true / is_false in which
-each value query is about one variable, and `C12_composite_history_one_owner_partial` — expressions over any number of variables, as
-long as one child at most owns the names when the query is asked (calls go on after queries; `CInv` at every step:
-`C12_call_keeps_invariant`); with `combine`
-proved (`C12_combine_correct`) and every single query right in any state satisfying `CInv` (`C12_eval_correct`,
-`C12_batch_eval_correct`, `C12_solution_correct`, `C12_is_true_correct`, `C12_is_false_correct`).  The invariant is now the one the
-code maintains: the marker clauses of C11's `MCInv` hold under the guard the code uses (`C12_marker_guarded`;
-`C12_reabsorb_marker_without_model` is the record that made the old form false).  Missing:
-  * `ReabsorbKeeps` (Lemmas/Solver/CompositeKeep.lean, a `def`): `_reabsorb_solver(m)` re-establishes `CInv` when the names of
-    the query span SEVERAL children (with it: `C12_composite_history_given_reabsorb_partial`, all name sets).  It does not raise
-    (`C12_reabsorb_never_raises`).  Case `len(parts) == len(old)`: `update` adds to the old child `t` only models whose key set is
-    `t.variables` — valid for `t` (`C12_update_accepts_valid`) — and the markers of the part; those are the markers of a single
-    `BVS == BVV` constraint, sound for `t` in the guarded form once one knows (a) the markers `add` leaves on a blank copy are
-    `ConstUnder` the part's constraints (a walk through the four mixins like `cL4_add_keys`; `MCInv` of the part plus "at most one
-    model cached" gives it) and (b) the marked expression depends on variables of `t` only (`TrivOk` says the constraint pins the
-    expression, not which variables the expression reads: an invariant "a marked expression reads known variables only" — true of
-    `batch_eval`, which checks `self.variables.issuperset(e.variables)`, and of `BVS` — has to be added to `MCInv`).  The other case
-    replaces the children by the parts: `cinv_install` for several children at once (the intermediate states violate `cover`), and
-    "no constraint without variables in a child", else the `CONCRETE` part of `split()` is dropped;
-  * the value queries with EXTRA constraints (`_ensure_sat(extra)` reabsorbs before the query; `compSatisfiable_spec` is proved
-    for `extra = []`);
+a SolverComposite) is answered as the property statement demands for all the constraints added.  Proved: **`C12_composite_history`**
+— ANY history of add / satisfiable() / eval / batch_eval / solution (no extra constraints) / is_true / is_false (any extra
+constraints), expressions over any variables, is answered right at EVERY step, and the bookkeeping invariant `CInv` holds at every
+step (`C12_call_correct`, `C12_composite_history_keeps_invariant`); `combine` (`C12_combine_correct`), `split` / `update` /
+`_reabsorb_solver` (`C12_reabsorb_keeps_invariant`) are proved.  The invariant is the one the code maintains: the marker clauses of
+C11's `MCInv` hold under the guard the code uses (`C12_marker_guarded`; `C12_reabsorb_marker_without_model` is the record that made
+the old form false).  Missing:
+  * the value queries with EXTRA constraints: `_ensure_sat(extra)` = `check_satisfiability(extra)` puts the extras on the merged
+    solver of their names, reabsorbs it, and checks the other unchecked children (`checkLoop` with `skip`): `compSatisfiable_spec`
+    is proved for `extra = []` only; the query itself then needs `Equi` with extras on both sides;
   * `min`, `max`: as `C12_batch_eval_correct` through `compQuery_judge` / `compQuery_keeps` once the footprint of the child's
     `min` / `max` is proved: `FullFrontend.min/max` call `self.satisfiable` / `self.eval` (the footprint of the whole class one
     stage down) and `_extrema`, for which only a specification under `satisfiable` exists (`z3Extrema_spec`);
